@@ -6,6 +6,7 @@ package main
 
 import (
 	"fmt"
+	"go/token"
 	"go/types"
 
 	"golang.org/x/tools/go/ssa"
@@ -121,4 +122,91 @@ func (p *Program) immutableKey(key string) bool {
 		}
 	}
 	return false
+}
+
+// allocOfFreeVar follows a free variable through the closure nesting to the Alloc it is bound to
+// (nil when the creation sites disagree or bind something else).
+func (p *Program) allocOfFreeVar(fv *ssa.FreeVar) *ssa.Alloc {
+	fn := fv.Parent()
+	parent := fn.Parent()
+	if parent == nil {
+		return nil
+	}
+	idx := -1
+	for i, v := range fn.FreeVars {
+		if v == fv {
+			idx = i
+		}
+	}
+	var found *ssa.Alloc
+	for _, b := range parent.Blocks {
+		for _, in := range b.Instrs {
+			mc, ok := in.(*ssa.MakeClosure)
+			if !ok || mc.Fn != fn {
+				continue
+			}
+			var a *ssa.Alloc
+			switch bv := mc.Bindings[idx].(type) {
+			case *ssa.Alloc:
+				a = bv
+			case *ssa.FreeVar:
+				a = p.allocOfFreeVar(bv)
+			}
+			if a == nil || found != nil && found != a {
+				return nil
+			}
+			found = a
+		}
+	}
+	return found
+}
+
+// stableCaptures: every variable fn captures is assigned only by the function that declares it, and
+// only before the first closure over it is made there (so what a closure reads from it later is what
+// was in it when the closure was made). Returns the reason when that is not so.
+func (p *Program) stableCaptures(fn *ssa.Function) string {
+	for _, fv := range fn.FreeVars {
+		a := p.allocOfFreeVar(fv)
+		if a == nil {
+			return "captured variable " + fv.Name() + " is not bound to one local variable"
+		}
+		firstClosure := token.NoPos
+		bad := ""
+		var visit func(v ssa.Value, depth int)
+		visit = func(v ssa.Value, depth int) {
+			for _, r := range *v.Referrers() {
+				switch r := r.(type) {
+				case *ssa.Store:
+					if r.Addr != v {
+						bad = "the address of " + fv.Name() + " escapes"
+					} else if depth > 0 {
+						bad = fv.Name() + " is assigned inside a closure"
+					}
+				case *ssa.UnOp, *ssa.DebugRef:
+				case *ssa.MakeClosure:
+					if depth == 0 && (firstClosure == token.NoPos || r.Pos() < firstClosure) {
+						firstClosure = r.Pos()
+					}
+					cf := r.Fn.(*ssa.Function)
+					for i, b := range r.Bindings {
+						if b == v && depth < 4 {
+							visit(cf.FreeVars[i], depth+1)
+						}
+					}
+				default:
+					bad = "the address of " + fv.Name() + " escapes"
+				}
+			}
+		}
+		visit(a, 0)
+		if bad != "" {
+			return bad
+		}
+		for _, r := range *a.Referrers() {
+			if st, ok := r.(*ssa.Store); ok && st.Addr == a && firstClosure != token.NoPos && st.Pos() > firstClosure {
+				return fv.Name() + " is assigned after a closure over it has been made"
+			}
+		}
+	}
+	return ""
 }
